@@ -74,7 +74,7 @@ func TestC19(t *testing.T) {
 		}
 		floatFns := fnsFor("ReadFloat64", "DecodeFloat64")
 		intFns := fnsFor("ReadInt64", "ReadUint64", "ReadInt32", "ReadUint32", "ReadInt", "ReadUint", "DecodeInt64", "DecodeUint64", "DecodeInt32", "DecodeUint32", "DecodeInt", "DecodeUint", "ReadFloat64")
-		docFns := fnsFor("SkipValue", "SkipValueFast", "Valid", "HandleArrayValues", "HandleObjectValues", "NextToken", "NextTokenType")
+		docFns := fnsFor("SkipValue", "SkipValueFast", "Valid", "HandleArrayValues", "HandleObjectValues", "NextToken", "NextTokenType", "HandleArrayValues/recursive", "HandleObjectValues/recursive")
 		strFns := fnsFor("ReadStringBytes", "SkipValue", "Valid")
 		allDecode := fnsFor("DecodeFloat64", "DecodeInt64", "DecodeUint64", "DecodeInt32", "DecodeUint32", "DecodeInt", "DecodeUint", "DecodeBool")
 
